@@ -77,6 +77,9 @@ def run(ctx):
     ctx.cov["evaluations"] += len(calls)
     ctx.lane("M2", calls=len(calls), events=sum(len(t) for t in traces), rejected=len([b for b in bad if b[0] >= 0]))
     ctx.sample(dict(lane="M2", trace=traces[1][:8]))
+    if not ctx.quick:
+        from .. import suite
+        suite.suite_lane(ctx, ["tests/test_predict.py"], ["predict."], clauses=("tensor",), workers=2)
     ctx.assumptions += ["row ids are encoded in the one-hot input (base 4 over 4 positions) and arg ids in the args, so every "
                         "(X row, arg row) pairing is observable", "device='cpu'"]
 
